@@ -42,6 +42,7 @@ type zgen struct {
 	z     *Zone
 	pool  []wm.Name // names used so far (for shared suffixes / repeated owners)
 	nfile int
+	long  bool // the zone has a long origin; relative names are long too
 }
 
 func (g *zgen) n(k int, label string) int {
@@ -61,6 +62,20 @@ var plainLabels = []string{"example", "org", "net", "www", "ns1", "ns2", "mail",
 var hostileLabels = []string{"a.b", "a b", "semi;colon", "par(en)", "q\"uote", "back\\slash", "at@sign", "\x00nul", "\xffhigh", "tab\there", "dollar$", "'apos", "d\\065"}
 
 func (g *zgen) label() []byte {
+	if g.long && g.n(3, "longlab") == 0 {
+		// long labels for zones with a long origin: completed names near the 255-octet limit
+		const al = "abcdefghijklmnopqrstuvwxyz0123456789-;. \\\"()@$"
+		n := 20 + g.n(44, "lln")
+		alpha := 37 // plain
+		if g.o.HostileLabels && g.n(2, "llh") == 0 {
+			alpha = len(al)
+		}
+		l := make([]byte, n)
+		for i := range l {
+			l[i] = al[g.n(alpha, "llc")]
+		}
+		return l
+	}
 	k := g.n(10, "labk")
 	switch {
 	case k < 6:
@@ -345,9 +360,11 @@ func (g *zgen) generate(st *State) Item {
 			}
 		}
 	case (k == 19 || k == 0) && g.o.BigGenerate && typ != TA && typ != TAAAA:
-		gn.Start = int64(g.n(3, "bs"))
-		gn.Step = int64(g.n(3, "bst") + 1)
-		gn.Stop = gn.Start + 65535*gn.Step + int64(g.n(int(gn.Step), "slack"))
+		// exactly the maximal number of steps, any step width, the stop anywhere between the
+		// last generated value and the next one
+		gn.Start = int64(g.n(8, "bs"))
+		gn.Step = []int64{2, 7, 1, 3, 16}[g.n(5, "bst")]
+		gn.Stop = gn.Start + 65535*gn.Step + (gn.Step - 1 - int64(g.n(int(gn.Step), "slack")))
 	case k >= 17:
 		gn.Start = int64(g.n(1000000, "s"))
 		gn.Step = int64(g.n(1000, "st") + 1)
@@ -661,6 +678,20 @@ func GenZone(t *rapid.T, o GenOpts) *Zone {
 	case k < 2:
 	case k == 2:
 		z.HasOrigin, z.Origin = true, [][]byte{}
+	case k == 3:
+		// a long origin (wire length 100..200): completed names come close to 255 octets, and
+		// their presentation form with escapes gets far beyond 255 characters
+		g.long = true
+		z.HasOrigin = true
+		n := wm.Name{}
+		for i := 2 + g.n(2, "lon"); i > 0; i-- {
+			n = append(n, g.label())
+		}
+		n = append(n, []byte("example"))
+		for n.WireLen() > 200 {
+			n = n[1:]
+		}
+		z.Origin = [][]byte(n)
 	default:
 		z.HasOrigin = true
 		z.Origin = [][]byte(g.absName(nil))
